@@ -56,7 +56,8 @@ func (s *Server) manifestDelete(repoStr, arg string) http.HandlerFunc {
 			return
 		}
 		// if referrers is enabled, remove entry from the referrers list
-		if *s.conf.API.Referrer.Enabled {
+		// deleting a tag leaves the manifest available by digest, and it remains a referrer
+		if *s.conf.API.Referrer.Enabled && !types.RefTagRE.MatchString(arg) {
 			// wrap in a func to allow a return from errors without breaking the actual delete
 			err = func() error {
 				rdr, err := repo.BlobGet(desc.Digest)
